@@ -427,6 +427,10 @@ def serveWireBorn (L Lu : Msg → Nat) (c : Consts) (cfg : Cfg) (proto : Proto) 
     (next : Query → Option Msg) : Option Msg :=
   (next (normalised q (setEdns0 c cfg.ecs q.opt))).map (writeMsg L Lu cfg (writerWire c proto q))
 
+/-- `doq.ResponseWriter.WriteMsg`: whatever ID the handler worked under (the
+server replaces the client's with a random one), the reply leaves with ID 0. -/
+def doqWriteMsg (m : Msg) : Msg := { m with id := 0 }
+
 /-! ### Msg.SetReply, the cache's ToMsg -/
 
 /-- `Msg.SetReply(req)` applied to a message `m` (fields it does not touch stay). -/
